@@ -25,6 +25,13 @@ var PluginPkgs = []string{
 	ro + "/plugins/encoding/csv", ro + "/plugins/sort", ro + "/plugins/stdio",
 }
 
+// IOPluginPkgs: the source / sink / bridge plugins of go.work that are not data lifts.
+var IOPluginPkgs = []string{
+	ro + "/plugins/http/client", ro + "/plugins/fsnotify", ro + "/plugins/signal", ro + "/plugins/proc",
+	ro + "/plugins/observability/log", ro + "/plugins/observability/logrus", ro + "/plugins/observability/zerolog",
+	ro + "/plugins/ozzo/ozzo-validation", ro + "/plugins/samber/psi", ro + "/plugins/testify",
+}
+
 var PromPkg = ro + "/ee/plugins/prometheus"
 var RatePkgs = []string{ro + "/plugins/ratelimit/native", ro + "/plugins/ratelimit/ulule"}
 
